@@ -88,7 +88,9 @@ func MergeNodes(left, right Node, document *Document) (Node, error) {
 			}
 		}
 
-		r.AddNode(child)
+		// The child must be copied otherwise the result would share nodes with
+		// (and later merges into the result would modify) the right node.
+		r.AddNode(DeepCopy(child, document))
 	next:
 	}
 
